@@ -162,15 +162,23 @@ class ScriptedRandomState(np.random.RandomState):
             raise Unmodelled('draw method %s is not modelled by the scripted generator' % name)
         return f
 
-    def __getattribute__(self, name):
-        if name in ('bytes', 'binomial', 'poisson', 'exponential', 'gamma', 'beta', 'multinomial',
-                    'lognormal', 'laplace', 'geometric', 'tomaxint', 'triangular', 'weibull',
-                    'standard_exponential', 'standard_gamma', 'standard_cauchy', 'standard_t',
-                    'chisquare', 'dirichlet', 'gumbel', 'hypergeometric', 'logistic', 'logseries',
-                    'multivariate_normal', 'negative_binomial', 'noncentral_chisquare',
-                    'noncentral_f', 'pareto', 'power', 'rayleigh', 'vonmises', 'wald', 'zipf', 'f'):
-            return object.__getattribute__(self, '_unmodelled')(name)
-        return object.__getattribute__(self, name)
+
+def _install_unmodelled():
+    def make(name):
+        def method(self, *a, **k):
+            self._ex.unmodelled += 1
+            raise Unmodelled('draw method %s is not modelled by the scripted generator' % name)
+        method.__name__ = name
+        return method
+    for name in ('bytes', 'binomial', 'poisson', 'exponential', 'gamma', 'beta', 'multinomial', 'lognormal', 'laplace',
+                 'geometric', 'tomaxint', 'triangular', 'weibull', 'standard_exponential', 'standard_gamma',
+                 'standard_cauchy', 'standard_t', 'chisquare', 'dirichlet', 'gumbel', 'hypergeometric', 'logistic',
+                 'logseries', 'multivariate_normal', 'negative_binomial', 'noncentral_chisquare', 'noncentral_f',
+                 'pareto', 'power', 'rayleigh', 'vonmises', 'wald', 'zipf', 'f'):
+        setattr(ScriptedRandomState, name, make(name))
+
+
+_install_unmodelled()
 
 
 # ---------------------------------------------------------------------------
@@ -391,6 +399,7 @@ class Explorer(object):
         pending = [(0, 0, 0, (), None, None, hash(()))]
         old = signal.signal(signal.SIGALRM, self._alarm)
         t_start = time.time()
+        rng = ScriptedRandomState(self)      # stateless apart from its link to the explorer: one instance serves all executions
         try:
             while True:
                 if pending:
@@ -422,7 +431,7 @@ class Explorer(object):
                 self.executions += 1
                 signal.setitimer(signal.ITIMER_REAL, self.exec_timeout)
                 try:
-                    out = self.run(ScriptedRandomState(self))
+                    out = self.run(rng)
                     status = 'ok'
                 except Abort:
                     continue
